@@ -28,11 +28,14 @@ type Sel struct {
 	OnlyLit  bool
 	Deferred bool // include deferred executions of calls
 	Filter   func(p *Path, i int) bool
+	Name     string // description of a Filter-only selector
 }
 
 // Describe renders the selector.
 func (s Sel) Describe() string {
 	switch {
+	case s.Name != "":
+		return s.Name
 	case s.Call != "":
 		return "call " + s.Call
 	case len(s.CallAny) > 0:
@@ -615,4 +618,452 @@ func SortedKeys[V any](m map[string]V) []string {
 	}
 	sort.Strings(out)
 	return out
+}
+
+// ---------------------------------------------------------------------------------------------
+// K-enum(outcome): what a class of complete paths must / must not do
+
+// Outcome is an obligation over complete paths: every path whose final condition entails When
+// must contain an event matching each Must selector and none matching a MustNot selector.
+type Outcome struct {
+	ID      string
+	Pkg     string
+	Root    string // restrict to roots whose name contains this ("" = all)
+	When    string
+	Must    []Sel
+	MustNot []Sel
+	Returns string // when non-empty: canonical text that the last result must (not) be: "err==nil", "err!=nil"
+	Result0 string // when non-empty: required canonical first result (aliases allowed)
+	Min     int    // minimum number of paths in the class
+	Why     string
+	After   *Sel // only events after the first event matching After count
+	// Consistent selects the class by satisfiability instead of entailment: every path whose final
+	// condition can hold together with When (the path does not rule When out). Use it when the code
+	// is required to look at something it may not look at today. Only for clauses about values
+	// that exist on every path (never about loop elements).
+	Consistent bool
+}
+
+// Outcome evaluates a K-enum(outcome) obligation.
+func (c *Ctx) Outcome(g Outcome) *OblResult {
+	desc := "paths with [" + g.When + "]"
+	for _, s := range g.Must {
+		desc += " must " + s.Describe() + ";"
+	}
+	for _, s := range g.MustNot {
+		desc += " must not " + s.Describe() + ";"
+	}
+	if g.Returns != "" {
+		desc += " return " + g.Returns
+	}
+	if g.Result0 != "" {
+		desc += " return " + g.Result0
+	}
+	res := &OblResult{ID: g.ID, Rule: "K-enum(outcome)", Clause: desc, Why: g.Why}
+	c.R.Add(res)
+	fail := func(v *Violation) {
+		v.Obligation = g.ID
+		v.Rule = res.Rule
+		res.Violations++
+		c.R.Violate(v)
+	}
+	paths, err := c.A.Paths(g.Pkg)
+	if err != nil {
+		fail(&Violation{Key: g.Pkg, Msg: err.Error(), Undecided: true})
+		return res
+	}
+	when, err := ParseClause(g.When, c.Al, c.P)
+	if err != nil || strings.Contains(FString2(when), "@UNDEFINED") {
+		fail(&Violation{Key: g.ID, Msg: "bad clause " + g.When, Undecided: true})
+		return res
+	}
+	var must, mustNot []func(*Path, int) bool
+	for _, s := range g.Must {
+		must = append(must, c.Match(s))
+	}
+	for _, s := range g.MustNot {
+		mustNot = append(mustNot, c.Match(s))
+	}
+	var after func(*Path, int) bool
+	if g.After != nil {
+		after = c.Match(*g.After)
+	}
+	reported := map[string]bool{}
+	for _, p := range paths {
+		if g.Root != "" && !strings.Contains(p.Root.Name(), g.Root) {
+			continue
+		}
+		if len(p.Events) == 0 {
+			continue
+		}
+		last := len(p.Events) - 1
+		conds := CondsBefore(p, last)
+		f := ResolvePseudos(when, EventsBefore(p, last), conds)
+		if g.Consistent {
+			ds, ok := DNF(f, false)
+			sat := false
+			for _, d := range ds {
+				if !Unsat(append(append([]Lit(nil), conds...), d...), c.P.Domain) {
+					sat = true
+					break
+				}
+			}
+			if !ok || !sat {
+				continue
+			}
+		} else if !Entails(conds, f, c.P.Domain) {
+			continue
+		}
+		start := 0
+		if after != nil {
+			start = -1
+			for i := range p.Events {
+				if after(p, i) {
+					start = i + 1
+					break
+				}
+			}
+			if start < 0 {
+				continue
+			}
+		}
+		res.Sites++
+		res.Evaluations++
+		if len(res.Samples) < 2 {
+			res.Samples = append(res.Samples, "path of "+p.Root.Name()+" ending "+c.P.Pos(p.Events[last].Pos)+" under: "+c.RenderConds(conds))
+		}
+		report := func(key, msg string, idx int) {
+			if reported[key] {
+				return
+			}
+			reported[key] = true
+			fail(&Violation{Key: key, Pos: c.P.Pos(p.Events[idx].Pos), Func: FuncChain(p, idx), Msg: msg,
+				Required: desc, Found: c.RenderConds(conds), Path: c.PathTrace(p, last)})
+		}
+		for mi, m := range must {
+			found := false
+			for i := start; i < len(p.Events); i++ {
+				if m(p, i) {
+					found = true
+					break
+				}
+			}
+			if !found {
+				report(FuncChainNoPos(p, last)+"|missing "+c.Render(g.Must[mi].Describe()), "a path of this class does not perform: "+c.Render(g.Must[mi].Describe()), last)
+			}
+		}
+		for mi, m := range mustNot {
+			for i := start; i < len(p.Events); i++ {
+				if m(p, i) {
+					report(SiteKey(p, i, "forbidden "+c.Render(g.MustNot[mi].Describe())), "a path of this class performs the forbidden effect: "+c.Render(c.A.DescribeEvent(&p.Events[i])), i)
+					break
+				}
+			}
+		}
+		if g.Result0 != "" {
+			r := p.Events[last]
+			want := c.Al.Expand(g.Result0)
+			got := ""
+			if len(r.Results) > 0 {
+				got = r.Results[0]
+			}
+			if got != want {
+				report(FuncChainNoPos(p, last)+"|result "+c.Render(want), "a path of this class returns "+c.Render(got)+" where "+c.Render(want)+" is required", last)
+			}
+		}
+		if g.Returns != "" {
+			r := p.Events[last]
+			errv := ""
+			if len(r.Results) > 0 {
+				errv = r.Results[len(r.Results)-1]
+			}
+			isNil := errv == "nil"
+			if (g.Returns == "err==nil" && !isNil) || (g.Returns == "err!=nil" && isNil) {
+				report(FuncChainNoPos(p, last)+"|returns "+g.Returns, "a path of this class returns "+c.Render(errv)+" where "+g.Returns+" is required", last)
+			}
+		}
+	}
+	if res.Sites < g.Min {
+		fail(&Violation{Key: g.ID + "|anchor", Pos: g.Pkg, Undecided: true,
+			Msg: fmt.Sprintf("anchor not found: %d path(s) satisfy [%s], at least %d expected", res.Sites, g.When, g.Min)})
+	}
+	res.Discharged = res.Violations == 0
+	return res
+}
+
+// ---------------------------------------------------------------------------------------------
+// K-own: who writes a field, module wide (AST scan, composite literals included)
+
+// FieldWrite is one syntactic write of a struct field.
+type FieldWrite struct {
+	Field string
+	Pkg   string // package path relative to the module
+	Func  string
+	Pos   string
+	RHS   string // source text of the right-hand side
+	Op    string // "=", "++", "lit", ...
+	Test  bool
+}
+
+// FieldWrites scans every function of the module for field writes.
+func (p *Prog) FieldWrites() []FieldWrite {
+	if p.fieldWrites != nil {
+		return p.fieldWrites
+	}
+	var out []FieldWrite
+	for _, pkg := range p.Pkgs {
+		rel := strings.TrimPrefix(pkg.PkgPath, ModulePath+"/")
+		info := pkg.TypesInfo
+		for _, file := range pkg.Syntax {
+			for _, d := range file.Decls {
+				fd, ok := d.(*ast.FuncDecl)
+				fname := "(package level)"
+				var node ast.Node = d
+				if ok {
+					if fd.Body == nil {
+						continue
+					}
+					if obj, _ := info.Defs[fd.Name].(*types.Func); obj != nil {
+						fname = ShortFuncName(obj)
+					}
+					node = fd.Body
+				}
+				ast.Inspect(node, func(n ast.Node) bool {
+					switch x := n.(type) {
+					case *ast.AssignStmt:
+						for i, l := range x.Lhs {
+							if f := FieldID(info, l); f != "" {
+								rhs := ""
+								if len(x.Rhs) == len(x.Lhs) {
+									rhs = types.ExprString(x.Rhs[i])
+								} else if len(x.Rhs) == 1 {
+									rhs = types.ExprString(x.Rhs[0])
+								}
+								out = append(out, FieldWrite{Field: f, Pkg: rel, Func: fname, Pos: p.Pos(l.Pos()), RHS: rhs, Op: x.Tok.String()})
+							}
+						}
+					case *ast.IncDecStmt:
+						if f := FieldID(info, x.X); f != "" {
+							out = append(out, FieldWrite{Field: f, Pkg: rel, Func: fname, Pos: p.Pos(x.Pos()), Op: x.Tok.String()})
+						}
+					case *ast.CompositeLit:
+						t := info.TypeOf(x)
+						if t == nil {
+							return true
+						}
+						st, ok := t.Underlying().(*types.Struct)
+						if !ok {
+							return true
+						}
+						owner := typeLabel(t)
+						for i, el := range x.Elts {
+							if kv, ok := el.(*ast.KeyValueExpr); ok {
+								if id, ok := kv.Key.(*ast.Ident); ok {
+									out = append(out, FieldWrite{Field: owner + "." + id.Name, Pkg: rel, Func: fname, Pos: p.Pos(kv.Pos()), RHS: types.ExprString(kv.Value), Op: "lit"})
+								}
+							} else if i < st.NumFields() {
+								out = append(out, FieldWrite{Field: owner + "." + st.Field(i).Name(), Pkg: rel, Func: fname, Pos: p.Pos(el.Pos()), RHS: types.ExprString(el), Op: "lit"})
+							}
+						}
+					case *ast.UnaryExpr:
+						// &x.F hands out a mutable reference to the field
+						if x.Op.String() == "&" {
+							if f := FieldID(info, x.X); f != "" {
+								out = append(out, FieldWrite{Field: f, Pkg: rel, Func: fname, Pos: p.Pos(x.Pos()), Op: "&"})
+							}
+						}
+					}
+					return true
+				})
+			}
+		}
+	}
+	p.fieldWrites = out
+	return out
+}
+
+// Own is a K-own obligation: Field may only be written in the listed packages (and, optionally,
+// only with the listed operators).
+type Own struct {
+	ID      string
+	Field   string
+	Pkgs    []string // allowed package paths relative to the module
+	Ops     []string // allowed operators ("" = any)
+	SkipLit bool     // composite-literal keys do not count (fresh records)
+	Min     int
+	Why     string
+}
+
+// Own evaluates a K-own obligation.
+func (c *Ctx) Own(g Own) *OblResult {
+	res := &OblResult{ID: g.ID, Rule: "K-own", Why: g.Why,
+		Clause: "field " + g.Field + " is written only in {" + strings.Join(g.Pkgs, ", ") + "}"}
+	if len(g.Ops) > 0 {
+		res.Clause += " with operators {" + strings.Join(g.Ops, ",") + "}"
+	}
+	c.R.Add(res)
+	n := 0
+	for _, w := range c.P.FieldWrites() {
+		if w.Field != g.Field || (g.SkipLit && w.Op == "lit") {
+			continue
+		}
+		if strings.HasPrefix(w.Pkg, "internal/") || strings.HasPrefix(w.Pkg, "test/") {
+			continue
+		}
+		n++
+		res.Evaluations++
+		okPkg := false
+		for _, p := range g.Pkgs {
+			if w.Pkg == p {
+				okPkg = true
+			}
+		}
+		okOp := len(g.Ops) == 0
+		for _, o := range g.Ops {
+			if w.Op == o {
+				okOp = true
+			}
+		}
+		if len(res.Samples) < 3 {
+			res.Samples = append(res.Samples, fmt.Sprintf("%s %s %s %s in %s", w.Pos, w.Field, w.Op, w.RHS, w.Func))
+		}
+		if !okPkg || !okOp {
+			res.Violations++
+			c.R.Violate(&Violation{Obligation: g.ID, Rule: "K-own", Key: w.Func + "|write " + g.Field + " " + w.Op, Pos: w.Pos, Func: w.Func,
+				Msg: fmt.Sprintf("%s is written (%s %s) in %s, outside the owners %v: %s", g.Field, w.Op, w.RHS, w.Pkg, g.Pkgs, g.Why)})
+		}
+	}
+	res.Sites = n
+	if n < g.Min {
+		res.Violations++
+		c.R.Violate(&Violation{Obligation: g.ID, Rule: "K-own", Key: g.ID + "|anchor", Undecided: true,
+			Msg: fmt.Sprintf("anchor not found: %d write(s) of %s, at least %d expected", n, g.Field, g.Min)})
+	}
+	res.Discharged = res.Violations == 0
+	return res
+}
+
+// ---------------------------------------------------------------------------------------------
+// who-may-call (AST level, resolved callees)
+
+// CallSite is one syntactic call with a statically resolved callee (function, method or
+// interface method).
+type CallSite struct {
+	Pkg    string // package path relative to the module
+	Func   string // enclosing function (short name)
+	Callee string // short name of the callee
+	Pos    string
+	Call   *ast.CallExpr
+	Info   *types.Info
+	Decl   *ast.FuncDecl
+}
+
+// CallSites lists every resolved call of the module.
+func (p *Prog) CallSites() []CallSite {
+	if p.callSites != nil {
+		return p.callSites
+	}
+	var out []CallSite
+	for _, pkg := range p.Pkgs {
+		rel := strings.TrimPrefix(pkg.PkgPath, ModulePath+"/")
+		info := pkg.TypesInfo
+		for _, file := range pkg.Syntax {
+			for _, d := range file.Decls {
+				fd, ok := d.(*ast.FuncDecl)
+				if !ok || fd.Body == nil {
+					continue
+				}
+				fname := fd.Name.Name
+				if obj, _ := info.Defs[fd.Name].(*types.Func); obj != nil {
+					fname = ShortFuncName(obj)
+				}
+				ast.Inspect(fd.Body, func(n ast.Node) bool {
+					call, ok := n.(*ast.CallExpr)
+					if !ok {
+						return true
+					}
+					var id *ast.Ident
+					switch f := ast.Unparen(call.Fun).(type) {
+					case *ast.Ident:
+						id = f
+					case *ast.SelectorExpr:
+						id = f.Sel
+					case *ast.IndexExpr:
+						switch g := ast.Unparen(f.X).(type) {
+						case *ast.Ident:
+							id = g
+						case *ast.SelectorExpr:
+							id = g.Sel
+						}
+					}
+					if id == nil {
+						return true
+					}
+					name := ""
+					switch o := info.Uses[id].(type) {
+					case *types.Func:
+						name = ShortFuncName(o)
+					case *types.Builtin:
+						name = o.Name()
+					}
+					if name != "" {
+						out = append(out, CallSite{Pkg: rel, Func: fname, Callee: name, Pos: p.Pos(call.Pos()), Call: call, Info: info, Decl: fd})
+					}
+					return true
+				})
+			}
+		}
+	}
+	p.callSites = out
+	return out
+}
+
+// MayCall is a who-may-call obligation: Callees may be called only from the listed packages.
+type MayCall struct {
+	ID      string
+	Callees []string
+	Pkgs    []string // allowed callers (package paths relative to the module)
+	Min     int
+	Why     string
+}
+
+// MayCall evaluates a who-may-call obligation.
+func (c *Ctx) MayCall(g MayCall) *OblResult {
+	res := &OblResult{ID: g.ID, Rule: "K-own(callers)", Why: g.Why,
+		Clause: strings.Join(g.Callees, "|") + " is called only from {" + strings.Join(g.Pkgs, ", ") + "}"}
+	c.R.Add(res)
+	for _, cs := range c.P.CallSites() {
+		match := false
+		for _, n := range g.Callees {
+			if cs.Callee == n {
+				match = true
+			}
+		}
+		if !match || strings.HasPrefix(cs.Pkg, "internal/") {
+			continue
+		}
+		res.Sites++
+		res.Evaluations++
+		if len(res.Samples) < 3 {
+			res.Samples = append(res.Samples, cs.Pos+" "+cs.Callee+" called from "+cs.Func)
+		}
+		ok := false
+		for _, p := range g.Pkgs {
+			if cs.Pkg == p {
+				ok = true
+			}
+		}
+		if !ok {
+			res.Violations++
+			c.R.Violate(&Violation{Obligation: g.ID, Rule: res.Rule, Key: cs.Func + "|call " + cs.Callee, Pos: cs.Pos, Func: cs.Func,
+				Msg: cs.Callee + " is called from " + cs.Pkg + ", outside " + fmt.Sprint(g.Pkgs) + ": " + g.Why})
+		}
+	}
+	if res.Sites < g.Min {
+		res.Violations++
+		c.R.Violate(&Violation{Obligation: g.ID, Rule: res.Rule, Key: g.ID + "|anchor", Undecided: true,
+			Msg: fmt.Sprintf("anchor not found: %d call(s) of %v, at least %d expected", res.Sites, g.Callees, g.Min)})
+	}
+	res.Discharged = res.Violations == 0
+	return res
 }
